@@ -2,6 +2,7 @@ import OmbottModel.Py
 import OmbottModel.Model.Router
 import OmbottModel.Model.RouterSpec
 import OmbottModel.Gen.Routeurl
+import OmbottModel.Gen.Pyint
 /-!
 Executable model of URL building (`ombott/router/radirouter.py: Route.url`,
 `ombott/router/filter_factory.py`: the formatters of the `int`/`float` filters) and the small
@@ -37,11 +38,15 @@ def digitsValue (ds : Str) : Nat := ds.foldl (fun acc c => acc * 10 + (decDigit?
 def intVal (z : Int) : Val := .conv ("int:".toList ++ intStr z)
 
 /-- the handler `make_filter('int', …)` builds: `tmp = re.compile(r'-?\d+').match(param)`;
-no match ⇒ `(None, 0, None)`; else `(int(tmp.group()), tmp.end(), None)` -/
+no match ⇒ `(None, 0, None)`; `try: value = int(tmp.group())`, `except ValueError` — the matched run
+has more digits than the interpreter converts (`Gen.intMaxStrDigits`; every `\d` character counts,
+leading zeros included, the sign does not) ⇒ `(None, 0, None)` as well; else
+`(value, tmp.end(), None)` -/
 def intFilter (s : Str) : Option FilterRes :=
   let neg := s.head? == some '-'
   let ds := (if neg then s.drop 1 else s).takeWhile isDecDigit
   if ds.isEmpty then none
+  else if Gen.intMaxStrDigits < ds.length then none
   else some ⟨intVal (if neg then -(digitsValue ds : Int) else (digitsValue ds : Int)),
              ds.length + (if neg then 1 else 0), none⟩
 
